@@ -140,11 +140,11 @@ CHECKS["C33"] = dict(
                # a live refresh (TrafficInit) as a third goroutine: {refresh || update ; update ; restart}, every prefix
                dict(_SCHED, name="refresh+updater", env=dict(VERIF_REFRESH=1, VERIF_NUPD=2, VERIF_NUPD2=0))],
         thorough=[dict(_SCHED, name="2x2-updaters", env=dict(VERIF_PAY=0, VERIF_WIDE=0, VERIF_NUPD=2)),
-                  dict(_SCHED, name="payer+2x2-updaters", env=dict(VERIF_PAY=1, VERIF_WIDE=0, VERIF_NUPD=2), max=3000),
-                  dict(_SCHED, name="2x2-updaters-wide", env=dict(VERIF_PAY=0, VERIF_WIDE=1, VERIF_NUPD=2), max=1500),
-                  dict(_SCHED, name="payer+updaters-wide", env=dict(VERIF_PAY=1, VERIF_WIDE=1, VERIF_NUPD=1)),
+                  dict(_SCHED, name="payer+2x2-updaters", env=dict(VERIF_PAY=1, VERIF_WIDE=0, VERIF_NUPD=2), max=1200),
+                  dict(_SCHED, name="2x2-updaters-wide", env=dict(VERIF_PAY=0, VERIF_WIDE=1, VERIF_NUPD=2), max=700),
+                  dict(_SCHED, name="payer+updaters-wide", env=dict(VERIF_PAY=1, VERIF_WIDE=1, VERIF_NUPD=1), max=800),
                   dict(_SCHED, name="refresh+updater", env=dict(VERIF_REFRESH=1, VERIF_NUPD=2, VERIF_NUPD2=0)),
-                  dict(_SCHED, name="refresh+2updaters", env=dict(VERIF_REFRESH=1, VERIF_NUPD=2, VERIF_NUPD2=1), max=1500)]),
+                  dict(_SCHED, name="refresh+2updaters", env=dict(VERIF_REFRESH=1, VERIF_NUPD=2, VERIF_NUPD2=1), max=600)]),
     judge=dict(spec="TrafficRestartTrace.tla", cfg="TrafficRestartTrace.cfg"),
     corrupt=corrupt_field("restart", "post", _c33_corrupt),
     nontrivial=lambda s: sum(1 for o in s["ops"] if o["op"] in ("start", "paystart", "refstart")) >= 2,
